@@ -103,6 +103,155 @@ func rootsOf(v ssa.Value) rootSet {
 	return rs
 }
 
+// ---------------------------------------------------------------------------
+// Return-root summaries: where may the pointer-like results of a module function point?
+// ---------------------------------------------------------------------------
+
+type retSummary struct {
+	Params  map[int]bool
+	Globals map[*ssa.Global]bool
+	Fresh   bool // some result may be freshly allocated
+	Other   bool // something else (external call result, unknown)
+}
+
+type retSummaries struct {
+	p *Program
+	m map[*ssa.Function]*retSummary
+}
+
+var retSumCache = map[*Program]*retSummaries{}
+
+func getRetSummaries(p *Program) *retSummaries {
+	if rs, ok := retSumCache[p]; ok {
+		return rs
+	}
+	rs := &retSummaries{p: p, m: map[*ssa.Function]*retSummary{}}
+	retSumCache[p] = rs
+	fns := p.ModFuncs()
+	for _, f := range fns {
+		rs.m[f] = &retSummary{Params: map[int]bool{}, Globals: map[*ssa.Global]bool{}}
+	}
+	size := func(s *retSummary) int {
+		n := len(s.Params)*4 + len(s.Globals)*4
+		if s.Fresh {
+			n++
+		}
+		if s.Other {
+			n += 2
+		}
+		return n
+	}
+	for round := 0; round < 12; round++ {
+		changed := false
+		for _, f := range fns {
+			s := rs.m[f]
+			before := size(s)
+			for _, ret := range returnsOf(f) {
+				for i := range ret.Results {
+					v := retResult(ret, i)
+					if !isPointerLike(v.Type()) {
+						continue
+					}
+					rs.addRoots(f, v, s, 0)
+				}
+			}
+			if size(s) != before {
+				changed = true
+			}
+		}
+		if !changed {
+			break
+		}
+	}
+	return rs
+}
+
+func (rs *retSummaries) addRoots(f *ssa.Function, v ssa.Value, s *retSummary, depth int) {
+	for r := range rootsOf(v) {
+		switch x := r.(type) {
+		case *ssa.Parameter:
+			if i := paramIndex(f, x); i >= 0 {
+				s.Params[i] = true
+			}
+		case *ssa.Global:
+			s.Globals[x] = true
+		case *ssa.Alloc, *ssa.MakeSlice, *ssa.MakeMap, *ssa.MakeInterface, *ssa.MakeClosure:
+			s.Fresh = true
+		case *ssa.Const:
+		case *ssa.Call:
+			cal := staticCallee(x)
+			if cal == nil || rs.m[cal] == nil {
+				if b, ok := x.Call.Value.(*ssa.Builtin); ok && (b.Name() == "len" || b.Name() == "cap") {
+					continue
+				}
+				s.Other = true
+				continue
+			}
+			cs := rs.m[cal]
+			if cs.Fresh {
+				s.Fresh = true
+			}
+			if cs.Other {
+				s.Other = true
+			}
+			for g := range cs.Globals {
+				s.Globals[g] = true
+			}
+			if depth < 6 {
+				for pi := range cs.Params {
+					if pi < len(x.Call.Args) {
+						rs.addRoots(f, x.Call.Args[pi], s, depth+1)
+					}
+				}
+			}
+		default:
+			s.Other = true
+		}
+	}
+}
+
+// deepRoots resolves call-result roots through the callee's return summary.
+func deepRoots(p *Program, v ssa.Value) rootSet {
+	rs := getRetSummaries(p)
+	out := rootSet{}
+	seen := map[ssa.Value]bool{}
+	var add func(v ssa.Value, depth int)
+	add = func(v ssa.Value, depth int) {
+		for r := range rootsOf(v) {
+			if seen[r] {
+				continue
+			}
+			seen[r] = true
+			c, ok := r.(*ssa.Call)
+			if !ok {
+				out[r] = true
+				continue
+			}
+			cal := staticCallee(c)
+			cs := rs.m[cal]
+			if cal == nil || cs == nil {
+				out[r] = true
+				continue
+			}
+			if cs.Fresh || cs.Other || len(cs.Params)+len(cs.Globals) == 0 {
+				out[r] = true // keep the call itself as a (fresh/unknown) root
+			}
+			for g := range cs.Globals {
+				out[g] = true
+			}
+			if depth < 6 {
+				for pi := range cs.Params {
+					if pi < len(c.Call.Args) {
+						add(c.Call.Args[pi], depth+1)
+					}
+				}
+			}
+		}
+	}
+	add(v, 0)
+	return out
+}
+
 // allocBase strips field/index selections (no loads) and returns the Alloc, if any.
 func allocBase(addr ssa.Value) *ssa.Alloc {
 	for {
@@ -152,10 +301,11 @@ func derivesFrom(v ssa.Value, srcs ...ssa.Value) bool {
 // ---------------------------------------------------------------------------
 
 type writeSite struct {
-	Instr ssa.Instruction
-	Fn    *ssa.Function
-	Field *types.Var // innermost field written, if any
-	Via   []*ssa.Function
+	Instr     ssa.Instruction
+	Fn        *ssa.Function
+	Field     *types.Var // innermost field written, if any
+	Via       []*ssa.Function
+	Inherited bool // a callee's write to a global, propagated to its callers
 }
 
 type mutSummary struct {
@@ -248,7 +398,7 @@ func (m *mutSummary) compute(fn *ssa.Function, stack map[*ssa.Function]bool) {
 	ps := map[int][]writeSite{}
 	gs := map[*ssa.Global][]writeSite{}
 	record := func(target ssa.Value, ws writeSite) {
-		for r := range rootsOf(target) {
+		for r := range deepRoots(m.p, target) {
 			switch rv := r.(type) {
 			case *ssa.Parameter:
 				if i := paramIndex(fn, rv); i >= 0 {
@@ -304,7 +454,7 @@ func (m *mutSummary) compute(fn *ssa.Function, stack map[*ssa.Function]bool) {
 			for g, sites := range m.global[cal] {
 				if len(sites) > 0 {
 					s0 := sites[0]
-					gs[g] = append(gs[g], writeSite{Instr: s0.Instr, Fn: s0.Fn, Field: s0.Field, Via: append([]*ssa.Function{cal}, s0.Via...)})
+					gs[g] = append(gs[g], writeSite{Instr: s0.Instr, Fn: s0.Fn, Field: s0.Field, Via: append([]*ssa.Function{cal}, s0.Via...), Inherited: true})
 				}
 			}
 			// closures passed as arguments / free variables: a closure's writes to captured
